@@ -68,6 +68,13 @@ class Color(Enum):
     RED = "r"
     BLUE = "b"
 
+# values embedded as they are in a schema (default / examples given through schema(), the member of a Literal): they are
+# serialized when the schema is, with the configuration of that moment
+@dataclass
+class Ex:
+    d: DC = field(default_factory=DC, metadata=schema(default=DC(5, None), examples=[DC(6, "e")]))
+    lit: Literal[Color.RED] = Color.RED
+
 @dataclass
 class Val:
     lo: int = 0
@@ -410,6 +417,12 @@ def observations(m) -> List[Tuple[str, Callable[[], Any]]]:
         add(f"dschema({t})", lambda t=t: deserialization_schema(getattr(m, t)))
         add(f"sschema({t})", lambda t=t: serialization_schema(getattr(m, t)))
     add("dschema(Cat|Dog)", lambda: deserialization_schema(Union[m.Cat, m.Dog]))
+    from apischema.json_schema import JsonSchemaVersion, definitions_schema
+
+    add("dschema(Ex)", lambda: deserialization_schema(m.Ex))
+    add("sschema(Ex,draft7)", lambda: serialization_schema(m.Ex, version=JsonSchemaVersion.DRAFT_7))
+    add("dschema(Ex,oas3.0,all_refs)", lambda: deserialization_schema(m.Ex, version=JsonSchemaVersion.OPEN_API_3_0, all_refs=True))
+    add("definitions(Ex)", lambda: definitions_schema(deserialization=[m.Ex], serialization=[m.Holder]))
     add("D(PNode)", lambda: D(m.PNode, {"value": 1, "child": {"value": 2}}))
     add("S(PNode)", lambda: S(m.PNode, m.PNode(1, m.PNode(2))))
     add("S(Folder)", lambda: S(m.Folder, m.Folder("a", m.User("u", [m.Folder("b")]))))
